@@ -599,7 +599,7 @@ impl OrderBook {
                                     }
                                 } else {
                                     // Closing a long as price goes down
-                                    if quote_copy.bid >= trigger.trigger_px {
+                                    if quote_copy.bid <= trigger.trigger_px {
                                         if trigger.is_market {
                                             should_insert.push(Self::create_ioc_trigger(order));
                                         } else {
@@ -628,7 +628,7 @@ impl OrderBook {
                                     }
                                 } else {
                                     // Closing a long as price goes up
-                                    if quote_copy.bid <= trigger.trigger_px {
+                                    if quote_copy.bid >= trigger.trigger_px {
                                         if trigger.is_market {
                                             should_insert.push(Self::create_ioc_trigger(order))
                                         } else {
